@@ -39,6 +39,8 @@ class Statement:
             s = Str((Lit(s.v.decode("utf-8", "replace")),))
         self.parts = list(s.parts) if isinstance(s, Str) else [StrOf(s)]
         self.rstripped = isinstance(s, Str) and s.rstripped
+        # the whole line is the result of a call the analysis does not model: nothing can be said about it
+        self.opaque_call = s.tag if isinstance(s, Unk) and s.typ == "ext" else None
 
     def literal_text(self):
         return "".join(p.text for p in self.parts if isinstance(p, Lit))
